@@ -120,17 +120,23 @@ Definition ipv4_layout (ihl dscp ecn total_len ident df mf frag_off ttl proto ch
 
 (* ---- IPv6 -------------------------------------------------------------- *)
 
-Inductive ipv6_field := V6TrafficClass | V6Dscp | V6Ecn | V6FlowLabel | V6PayloadLen | V6NextHeader | V6HopLimit.
+Inductive ipv6_field := V6Dscp | V6Ecn | V6FlowLabel | V6PayloadLen | V6NextHeader | V6HopLimit.
 
 Definition ipv6_range (f : ipv6_field) : nat * nat :=
   match f with
-  | V6TrafficClass => (4, 8) | V6Dscp => (4, 6) | V6Ecn => (10, 2) | V6FlowLabel => (12, 20)
+  | V6Dscp => (4, 6) | V6Ecn => (10, 2) | V6FlowLabel => (12, 20)
   | V6PayloadLen => (32, 16) | V6NextHeader => (48, 8) | V6HopLimit => (56, 8)
   end%nat.
 
 Definition ipv6_layout (traffic_class flow_label payload_len next_header hop_limit : N)
            (addrs : bytes) : layout :=
   [F 4 6; F 8 traffic_class; F 20 flow_label; F 16 payload_len; F 8 next_header;
+   F 8 hop_limit] ++ octets addrs.
+
+(* the same with the traffic class split as in RFC 2474 / RFC 3168 *)
+Definition ipv6_layout_ds (dscp ecn flow_label payload_len next_header hop_limit : N)
+           (addrs : bytes) : layout :=
+  [F 4 6; F 6 dscp; F 2 ecn; F 20 flow_label; F 16 payload_len; F 8 next_header;
    F 8 hop_limit] ++ octets addrs.
 
 (* the traffic class octet itself: RFC 2474 / RFC 3168 *)
